@@ -82,13 +82,15 @@ Definition clark (ns : option str) (local : str) : qname :=
 Fixpoint upto_brace (s : str) : option (str * str) :=
   match s with
   | [] => None
-  | 125 :: r => Some ([], r)
-  | x :: r => match upto_brace r with Some (a, b) => Some (x :: a, b) | None => None end
+  | x :: r => if N.eqb x 125 then Some ([], r)
+              else match upto_brace r with Some (a, b) => Some (x :: a, b) | None => None end
   end.
 Definition ns_of (q : qname) : option str :=
   match q with
-  | 123 :: r => match upto_brace r with Some ((_ :: _) as u, _ :: _) => Some u | _ => None end
-  | _ => None
+  | x :: r => if N.eqb x 123
+              then match upto_brace r with Some ((_ :: _) as u, _ :: _) => Some u | _ => None end
+              else None
+  | [] => None
   end.
 
 Definition spec_xsi_ns : str := [104;116;116;112;58;47;47;119;119;119;46;119;51;46;111;114;103;47;50;48;48;49;47;88;77;76;83;99;104;101;109;97;45;105;110;115;116;97;110;99;101].
@@ -337,10 +339,8 @@ Fixpoint norm_nil (evs : list wevent) : list wevent :=
    namespaces, attribute defaults.  No inheritance, wildcards or compound fields. *)
 
 Definition plain_ns (n : str) : bool :=
-  match n with
-  | 35 :: _ | 33 :: _ => false                       (* ##any & co, !other *)
-  | _ => negb (existsb (fun c => xml_ws c || N.eqb c 123 || N.eqb c 125) n)
-  end.
+  negb (match n with x :: _ => N.eqb x 35 || N.eqb x 33 | [] => false end)     (* ##any & co, !other *)
+  && negb (existsb (fun c => xml_ws c || N.eqb c 123 || N.eqb c 125) n).
 Definition plain_name (n : str) : bool :=
   match n with [] => false | _ => negb (existsb (fun c => N.eqb c 123 || N.eqb c 125) n) end.
 Definition oplain_ns (o : option str) : bool := match o with Some n => plain_ns n | None => true end.
@@ -371,10 +371,18 @@ Definition ftype_ok (D : mdesc) (f : fdesc) : bool :=
   | _ => true
   end.
 
+(* a stated default is a str / int / bool of the field's type (equality with it is then structural) *)
+Definition default_ok (f : fdesc) : bool :=
+  match fd_default f, fd_type f with
+  | None, _ => true
+  | Some (PStr _), TStr | Some (PInt _), TInt | Some (PBool _), TBool => true
+  | _, _ => false
+  end.
+
 Definition wf_field (D : mdesc) (f : fdesc) : bool :=
   (is_kind KText f || is_kind KElement f || is_kind KAttribute f)
   && plain_name (fd_name f) && oplain_name (fd_xml_name f) && oplain_ns (fd_namespace f)
-  && ftype_ok D f
+  && ftype_ok D f && default_ok f
   && negb (fd_mixed f)
   && match fd_choices f with [] => true | _ => false end
   (* list only on elements; a scalar is Optional or has a default *)
@@ -417,6 +425,11 @@ Definition wf_class (D : mdesc) (c : cdesc) : bool :=
 
 Fixpoint distinctN (l : list N) : bool :=
   match l with [] => true | x :: r => negb (existsb (N.eqb x) r) && distinctN r end.
+
+(* the part of slice F1 the theorem covers: no sequence groups (those are under correspondence and
+   the specification oracle) *)
+Definition no_sequences (D : mdesc) : bool :=
+  forallb (fun c => forallb (fun f => match fd_sequence f with None => true | Some _ => false end) (cd_fields c)) (md_classes D).
 
 Definition wf_desc (D : mdesc) : bool :=
   forallb (wf_class D) (md_classes D)
